@@ -80,7 +80,7 @@ type Task struct {
 	// running under another context). It is scheduled like any other task, but the run is over ("done") as soon
 	// as every other task has finished. Tasks started by a daemon are daemons.
 	Daemon bool
-	solo               bool // Solo mode: never parks
+	solo   bool // Solo mode: never parks
 }
 
 // LogEntry is one scheduling decision.
@@ -600,6 +600,9 @@ type RWMutex struct {
 	// lockset bookkeeping (Access): which task touched the guarded tables last, and how often that changed
 	accOwner     *Task
 	accHandovers int
+	// accessField bookkeeping: who used a plain guarded field of the scope, and how
+	fieldUses    []*fieldUse
+	fieldFlagged bool
 }
 
 func (m *RWMutex) heldBy(t *Task, writeOnly bool) bool {
@@ -883,8 +886,77 @@ func (s *Sim) NewCtx() *Ctx {
 func AccessOf(x interface{}, table string, write bool, pos string) {
 	if l, ok := x.(interface{ SimLock(string) *RWMutex }); ok {
 		if m := l.SimLock(table); m != nil {
+			if table != "values" && table != "types" {
+				accessField(m, table, write, pos)
+				return
+			}
 			Access(m, write, pos)
 		}
+	}
+}
+
+type fieldUse struct {
+	task            *Task
+	wrote           bool
+	unlocked        string // position of an access made without the lock it needs ("" = none)
+	unlockedIsWrite bool
+}
+
+// accessField is the probe for a plain field of a scope (the external lookup) that is read on every lookup and
+// written rarely. Read-shared state in Eraser's sense: any number of tasks may read it without a lock as long as
+// nobody writes it. A violation is two accesses by DIFFERENT tasks of one run, at least one of them a write, at
+// least one of them made without the scope's lock in the mode it needs (the simulation serialises everything, so
+// "could these two race on real threads" is decided from the locks held, not from what happened to interleave).
+func accessField(m *RWMutex, field string, write bool, pos string) {
+	s, t := current()
+	if t == nil {
+		return
+	}
+	s.mu.Lock()
+	held := m.heldBy(t, write)
+	s.Counters["access_field"]++
+	var me *fieldUse
+	for _, u := range m.fieldUses {
+		if u.task == t {
+			me = u
+		}
+	}
+	if me == nil {
+		me = &fieldUse{task: t}
+		m.fieldUses = append(m.fieldUses, me)
+	}
+	if write {
+		me.wrote = true
+	}
+	if !held && (me.unlocked == "" || write) {
+		me.unlocked, me.unlockedIsWrite = pos, write
+	}
+	detail := ""
+	for _, u := range m.fieldUses {
+		if u.task == t {
+			continue
+		}
+		switch {
+		case write && !held:
+			detail = fmt.Sprintf("write of %s without the scope's write lock at %s while task %s also uses the field", field, pos, u.task.ID)
+		case write && u.unlocked != "":
+			detail = fmt.Sprintf("write of %s at %s; task %s accesses the field without the scope's lock at %s", field, pos, u.task.ID, u.unlocked)
+		case !write && !held && u.wrote:
+			detail = fmt.Sprintf("read of %s without the scope's lock at %s; task %s writes the field", field, pos, u.task.ID)
+		case !write && held && u.unlocked != "" && u.unlockedIsWrite:
+			detail = fmt.Sprintf("read of %s at %s; task %s writes the field without the scope's write lock at %s", field, pos, u.task.ID, u.unlocked)
+		}
+		if detail != "" {
+			break
+		}
+	}
+	flagged := m.fieldFlagged
+	if detail != "" {
+		m.fieldFlagged = true
+	}
+	s.mu.Unlock()
+	if detail != "" && !flagged {
+		s.violate("lockset", detail, t)
 	}
 }
 
